@@ -32,7 +32,7 @@ def _strip_c12(verdicts):
 
 def run(ctx):
     jobs = ctx.pick([("MC_Tracking", "MC_Tracking_c13.cfg")], [("MC_Tracking", "MC_Tracking_c13_thorough.cfg")])
-    v = c12.execute(ctx, PID, PREFIX, EVENTS, WITH_VEL, jobs, ctx.pick(200, 8000), ctx.pick(800, 30000), post=_strip_c12)
+    v = c12.execute(ctx, PID, PREFIX, EVENTS, WITH_VEL, jobs, ctx.pick(200, 5000), ctx.pick(800, 20000), post=_strip_c12)
     ctx.rule = ("TLC enumerates integer two-frame series (sites x stencil x all numberings x guesses x time stamps) and checks "
                 "I => D for velocities and right-hand sides in exact rational arithmetic; sampled leaves are rebuilt as real "
                 "Frames and run through calculate_velocity; plus random series with build_force_matrix / "
